@@ -991,6 +991,28 @@ def no_panic_lister(ctx):
 
 
 # ------------------------------------------------------------------ C16
+def _table_literals(f, defpath):
+    """literals of a constant array (`const VIM_SWAP_SUFFIXES: [&str; 2] = [".swp", ".swx"]`)"""
+    cb = f.bodies.get(defpath)
+    out = []
+    if cb is not None and cb.kind in ("Const", "Static"):
+        for blk in cb.normal_blocks():
+            for st in blk["stmts"]:
+                if st["rv"]["k"] == "agg" and st["rv"].get("array"):
+                    out += [(const_val(o_) or "").strip("'\"") for o_ in st["rv"]["ops"]]
+    return out
+
+
+def _tables_of(x, t_):
+    return [a_[1] for y in t_["args"][:1] for a_ in x.prov.operand_atoms(y, interproc=False) if a_[0] == "constdef"]
+
+
+def tmp_file_predicates(f):
+    """bool fns of one argument that test a name against the Vim swap suffix, written at the call or held in a constant table"""
+    return [x for x in f.user_bodies() if x.ret == "bool" and x.argc == 1 and x.kind == "Fn" and
+            any(any("swp" in (const_val(a) or "") for a in tt["args"]) or any("swp" in l_ for d_ in _tables_of(x, tt) for l_ in _table_literals(f, d_)) for _, tt in x.calls())]
+
+
 @rule("C16.FILTER-ATOMS", ["C16"], """the callback keeps a path only if it is not an editor temporary, not inside the work directory and matches the extension predicate; it notifies
       only when some path was kept""", "K2", floor=2)
 def filter_atoms(ctx):
@@ -1005,7 +1027,7 @@ def filter_atoms(ctx):
                 tps, n = true_paths(fb)
                 ctx.need(tps, "true-returning path of the filter closure")
                 bad = []
-                tmp_fns = {x.name for x in f.user_bodies() if x.ret == "bool" and x.argc == 1 and x.kind == "Fn" and any(any("swp" in (const_val(a) or "") for a in tt["args"]) for _, tt in x.calls())}
+                tmp_fns = {x.name for x in tmp_file_predicates(f)}
                 wd_fns = {ctx.r.outer_fn(x).name for x in f.user_bodies() if any(any(a[0] == "constdef" and a[1].endswith("WORK_DIR_NAME") for a in x.prov.operand_atoms(y)) for _, tt in x.calls() for y in tt["args"])
                           and f.bodies[ctx.r.outer_fn(x).name].ret == "bool" and "Path" in f.bodies[ctx.r.outer_fn(x).name].locals[1]["ty"]}
                 # zinoma's own files are *anywhere below* a work directory: the test used on event paths looks at every component of the path (the other
@@ -1140,13 +1162,26 @@ def nonblocking_notify(ctx):
 @rule("C16.TMP-ATOMS", ["C16"], """editor temporaries are recognised: `*~`, `.*.swp`, `.*.swx`""", "K3", floor=3)
 def tmp_atoms(ctx):
     f = ctx.f
-    fns = [x for x in f.user_bodies() if x.ret == "bool" and x.argc == 1 and x.kind == "Fn" and any(any("swp" in (const_val(a) or "") for a in tt["args"]) for _, tt in x.calls())]
+    def table_literals(defpath):
+        return _table_literals(f, defpath)
+    fns = tmp_file_predicates(f)
     ctx.need(fns, "temporary-file predicate")
     for b in fns:
         tps, n = true_paths(b)
-        def lit_test(method, lit):
+        def lit_test(method, lit, b=b):
+            def via_table(o):
+                # `TABLE.iter().any(|s| name.<method>(s))` over a constant array holding the literal: true when the name passes the test for some entry
+                if not (o[1].endswith("::any") and o[3]["args"]):
+                    return False
+                recv = b.prov.operand_atoms(o[3]["args"][0], interproc=False)
+                if not any(lit in table_literals(a_[1]) for a_ in recv if a_[0] == "constdef") or [c for c in atom_callres(recv) if re.search(RESTRICTING, c)]:
+                    return False
+                cbs = closure_bodies_passed(b, o[3])
+                def tests_entry(o2, cb):
+                    return o2[0] == "call" and method in o2[1] and len(o2[3]["args"]) > 1 and ("param", 2) in cb.prov.operand_atoms(o2[3]["args"][1], interproc=False)
+                return bool(cbs) and all(all(any(tests_entry(o2, cb) for o2 in ret_origins(cb, p2)) for p2 in enumerate_paths(cb)) for cb in cbs)
             def p(o):
-                return o[0] == "call" and method in o[1] and any((const_val(a) or "").strip("'\"") == lit for a in o[3]["args"])
+                return o[0] == "call" and ((method in o[1] and any((const_val(a) or "").strip("'\"") == lit for a in o[3]["args"])) or via_table(o))
             return p
         def holds(fa, ro, pred):
             # the test is true on this path: taken as a true edge, or it is the very value returned (`a || b` returns b)
